@@ -159,6 +159,25 @@ def build():
     ser.self_inner = None
     fn(ser, "cautious", "serde_cautious", param_ty={"hint": "Option<usize>"})
 
+    # ------------------------------------------------------------------ set.rs
+    cur = []
+    out.append(("set.rs (the size comparisons that choose the iteration strategy)", cur))
+    st = unit("set", "set.rs", "set_")
+    st.self_name = "HashSet"
+    lens = {"self.len()": ("self_len", "usize"), "other.len()": ("other_len", "usize"), "rhs.len()": ("rhs_len", "usize")}
+    fn(st, "HashSet::intersection", "set_intersection_self_smaller", extract=("ifcond", 0), opaque=lens)
+    fn(st, "HashSet::union", "set_union_self_smaller", extract=("ifcond", 0), opaque=lens)
+    fn(st, "HashSet::sub_assign", "set_sub_assign_remove_branch", extract=("ifcond", 0), opaque=lens)
+    fn(st, "Difference::size_hint", "set_difference_size_hint_lower", extract=("tuple0", 0),
+       opaque={"self.other.len()": ("other_len", "usize")}, param_ty={"lower": "usize", "upper": "usize"})
+    # ------------------------------------------------------------------ map.rs
+    cur = []
+    out.append(("map.rs", cur))
+    mp = unit("map", "map.rs", "map_")
+    mp.self_name = "HashMap"
+    fn(mp, "HashMap::extend", "map_extend_reserve", extract=("let", "reserve"),
+       opaque={"self.is_empty()": ("self_is_empty", "bool"), "iter.size_hint().0": ("hint_lower", "usize")})
+
     return out, errors
 
 def render(out):
